@@ -161,6 +161,8 @@ func (c *Cache) refresh() error {
 		devPrio, oldPrio := devSpec.GetPriority(), oldSpec.GetPriority()
 		switch {
 		case devPrio > oldPrio:
+			// a higher priority Spec overrides lower priority conflicts, too
+			delete(conflicts, name)
 			return false
 		case devPrio == oldPrio:
 			devPath, oldPath := devSpec.GetPath(), oldSpec.GetPath()
